@@ -326,57 +326,19 @@ fn explained_sequentially(case: &Case, observed: &[Option<Vec<Answer>>], with_ev
 
 pub struct C13 {
     pool: Option<Pool>,
-    alone: BTreeMap<(String, bool, Op), Answer>,
-    has_cycle: BTreeMap<String, bool>,
+    alone: crate::alone::Alone,
 }
 
 impl C13 {
     pub fn new() -> C13 {
-        C13 { pool: None, alone: BTreeMap::new(), has_cycle: BTreeMap::new() }
+        C13 { pool: None, alone: crate::alone::Alone::new() }
     }
 
     fn alone_answer(&mut self, doc: &Doc, tolerant: bool, op: &Op) -> Answer {
-        let key = (doc.label.clone(), tolerant, op.clone());
-        if let Some(a) = self.alone.get(&key) {
-            return a.clone();
-        }
-        let ctl = SimCtl::new(false, false);
-        let a = match ops::open(&doc.bytes, &ctl, tolerant, &doc.password) {
-            Ok(file) => {
-                let r = file.resolver();
-                ops::exec(&file, &r, true, op)
-            }
-            Err(e) => Answer::err(&e),
-        };
-        if self.alone.len() > 200_000 {
-            self.alone.clear();
-        }
-        self.alone.insert(key, a.clone());
-        a
+        self.alone.answer(doc, tolerant, op)
     }
-
-    /// A document "has a typed reference cycle" when a right-typed strict load of one of its
-    /// objects, run alone and uncached, fails with the recursion guard's error.
     fn doc_has_cycle(&mut self, doc: &Doc) -> bool {
-        if let Some(b) = self.has_cycle.get(&doc.label) {
-            return *b;
-        }
-        let mut found = false;
-        for (id, kind) in doc.inv.objects.clone() {
-            for op in ops::right_ops(id, kind) {
-                if matches!(op, Op::Get(..)) {
-                    let a = self.alone_answer(doc, false, &op);
-                    if !a.ok && a.text.contains("Recursive reference") {
-                        found = true;
-                    }
-                }
-            }
-            if found {
-                break;
-            }
-        }
-        self.has_cycle.insert(doc.label.clone(), found);
-        found
+        self.alone.doc_has_cycle(doc)
     }
 
     fn gen_case(&mut self, ctx: &WorkerCtx, i: u64) -> Case {
